@@ -163,6 +163,18 @@ func EnvExists(path string) bool {
 	return err == nil
 }
 
+// EnvFile makes a file with the given content exist: natively it is written to disk (directories created), under the
+// symbolic interpreter it is entered into the environment-stub file system that fs.IsValidFile / os.ReadFile consult.
+func EnvFile(path, content string) {
+	for i := len(path) - 1; i > 0; i-- {
+		if path[i] == '/' {
+			os.MkdirAll(path[:i], 0755)
+			break
+		}
+	}
+	os.WriteFile(path, []byte(content), 0644)
+}
+
 // Symbolic reports whether the harness runs under the symbolic interpreter.
 func Symbolic() bool { return false }
 
